@@ -49,6 +49,8 @@ def scriptedEnv (orc : List FrameOracle) (slots : List Bytes) (slotErr : Bytes) 
   std := fun i _ => (orc[i]?).bind (·.std)
   forward := fun _ req => match req with
     | 0xFE :: _ => none
+    -- code 0xFD: the reply is the rest of the request verbatim (any reply bytes can be scripted)
+    | 0xFD :: rest => some rest
     | _ => some (0xAA :: req)
 
 /-- `pkOK` depends on which bytes are asked about: `req[1:]` (old format) or the KeyBlob -/
